@@ -147,7 +147,9 @@ Record obs := {
   o_both : graph;      (* graph_diff(g1, g2) *)
   o_first : graph;
   o_second : graph;
-  o_sk : graph         (* g1.skolemize().de_skolemize(), labels as in the case *)
+  o_sk : graph;        (* g1.skolemize().de_skolemize(), labels as in the case *)
+  o_skv : graph        (* g1.skolemize(authority=.., basepath=.., new_graph=.., bnode=..).de_skolemize() for a
+                          basepath under /.well-known/genid/ : blank labels may be fresh *)
 }.
 
 (* Finding FC14a: a blank node in predicate position.  Color.distinguish puts
@@ -185,7 +187,7 @@ Definition model_obs (c : case) : obs :=
   {| o_iso := i; o_toiso := i; o_caneq := i; o_alt1 := i; o_alt2 := i;
      o_cg1 := cg1; o_cg2 := cg2;
      o_both := g_inter cg1 cg2; o_first := g_diff cg1 cg2; o_second := g_diff cg2 cg1;
-     o_sk := g1 |}.
+     o_sk := g1; o_skv := g1 |}.
 
 Definition isnil (g : graph) : bool := match g with [] => true | _ => false end.
 
@@ -219,7 +221,8 @@ Definition spec_diff (c : case) (o : obs) : bool :=
   && gseteqb (o_first o) (g_diff (o_cg1 o) (o_cg2 o))
   && gseteqb (o_second o) (g_diff (o_cg2 o) (o_cg1 o)).
 
-Definition spec_skolem (c : case) (o : obs) : bool := iso_dec (o_sk o) (c_g1 c).
+Definition spec_skolem (c : case) (o : obs) : bool :=
+  iso_dec (o_sk o) (c_g1 c) && iso_dec (o_skv o) (c_g1 c).
 
 Definition spec_ok (c : case) (o : obs) : bool :=
   spec_verdicts c o && spec_canon c o && spec_diff c o && spec_skolem c o.
